@@ -57,7 +57,12 @@ PROPERTIES = {
 
 RULES = {
     "C04": "seeded grammar generator in the Go harness: files of 0..40 definitions over the 16 dispatching kinds + unknown lines "
-           "(1..8 tokens), BA_DEF_DEF_/BA_ typed by the first earlier BA_DEF_, identifiers up to 128 chars, uints up to 2^64-1, INT / HEX "
+           "(1..8 tokens: identifiers, keywords, numbers, every printable ASCII punctuation character except the dot - the double "
+           "quote, the backslash and the apostrophe included, as in the class upunct of C04_unknown_one - and string literals "
+           "glued from words, numbers, blanks, punctuation, apostrophes, escaped quotes in odd and even counts, backslashes "
+           "and multi-byte UTF-8: discardLine reads tokens up to the line end, a string inside an unknown line denotes nothing "
+           "and must not change how the next line is parsed; counted as c04-unknown-line-with-string / "
+           "-odd-number-of-quotes), BA_DEF_DEF_/BA_ typed by the first earlier BA_DEF_, identifiers up to 128 chars, uints up to 2^64-1, INT / HEX "
            "attribute ranges, defaults and values over the whole int64 range as decimal integers (odd values beyond 2^53, 2^53 and "
            "its neighbours, both int64 limits and their neighbours, one beyond each limit and beyond uint64 = saturation, leading "
            "zeros) and as fraction / exponent spellings of integers below 2^53 (F12), decimal/exponent floats, strings with \\\" / backslash / multi-byte UTF-8 (2-4 byte encodings, incl. runes whose low byte is NUL / LF / quote / backslash; "
